@@ -432,9 +432,9 @@ def ref_call(U, e, op):
   from malt.impl import api
   from malt.core import converter
   if op['op'] == 'cv':
-    okey = ('cv', op['rec'], op['ur'], op['feats'])
+    okey = ('cv', op['rec'], op['ur'], op['feats'], bool(op.get('disabled')))
   else:
-    okey = ('cc', op['rec'], op['ur'], op['icuc'], op['feats'], op.get('kw', 'none'))
+    okey = ('cc', op['rec'], op['ur'], op['icuc'], op['feats'], op.get('kw', 'none'), bool(op.get('disabled')))
   key = (e.fid, okey, op['x'])
   r = U['ref_call'].get(key)
   if r is None:
@@ -446,7 +446,20 @@ def ref_call(U, e, op):
 
 
 def _call_thunk(malt, api, converter, f, op):
-  """Returns callable(x, l) performing the op's request on f."""
+  """Returns callable(x, l) performing the op's request on f (inside a
+  conversion-disabled region when the op says so)."""
+  inner = _call_thunk_inner(malt, api, converter, f, op)
+  if not op.get('disabled'):
+    return inner
+  from malt.core import ag_ctx
+
+  def in_disabled_region(x, l):
+    with ag_ctx.ControlStatusCtx(ag_ctx.Status.DISABLED):
+      return inner(x, l)
+  return in_disabled_region
+
+
+def _call_thunk_inner(malt, api, converter, f, op):
   if op['op'] == 'cv':
     w = malt.convert(recursive=op['rec'], optional_features=_feats(malt, op['feats']),
                      user_requested=op['ur'])(f)
@@ -482,6 +495,9 @@ def prepare_refs(lane, plan):
   optsets = set()
   for t in plan['threads']:
     for op in t['ops']:
+      if op['op'] == 'fresh':
+        optsets.add((op['rec'], op['feats']))
+        continue
       e = E[op['fid']]
       if op['op'] == 'tg':
         optsets.add((op['rec'], op['feats']))
@@ -491,7 +507,7 @@ def prepare_refs(lane, plan):
       else:
         ref_call(U, e, op)
   # post-run probes and R8 need the to_graph references of the pool x option sets in play
-  fids = sorted(set(op['fid'] for t in plan['threads'] for op in t['ops']))
+  fids = sorted(set(op['fid'] for t in plan['threads'] for op in t['ops'] if op['fid'] >= 0))
   for fid in fids:
     for rec, fi in sorted(optsets):
       ref_to_graph(U, E[fid], rec, fi)
@@ -534,13 +550,28 @@ def make_plan(seed, index, tier, sub):
               'call': rng.choice(XS[:5]) if rng.random() < 0.5 else None}
       elif r < 0.75:
         op = {'op': 'cv', 'fid': fid, 'rec': rec, 'feats': fi, 'ur': rng.random() < 0.7,
-              'x': rng.choice(XS)}
+              'x': rng.choice(XS), 'disabled': rng.random() < 0.12}
       else:
         op = {'op': 'cc', 'fid': fid, 'rec': rec, 'feats': fi, 'ur': rng.random() < 0.5,
               'icuc': rng.random() < 0.8, 'x': rng.choice(XS),
-              'kw': rng.choice(['none', 'none', 'empty', 'named'])}
+              'kw': rng.choice(['none', 'none', 'empty', 'named']), 'disabled': rng.random() < 0.12}
       ops.append(op)
     threads.append({'ops': ops})
+  # "fresh" ops: a new version of function vf is loaded *during* the run into a
+  # slot whose previous occupant is dropped first (garbage-collected functions,
+  # address reuse of code objects), then requested like any other function
+  if rng.random() < 0.45:
+    nslots = rng.choice([1, 1, 2])
+    vers = [0] * nslots
+    for _ in range(rng.randint(2, 5)):
+      t = rng.randrange(nthreads)
+      slot = rng.randrange(nslots)
+      vers[slot] += 1
+      rec, fi = rng.choice(optsets)
+      op = {'op': 'fresh', 'slot': slot, 'ver': vers[slot], 'rec': rec, 'feats': fi,
+            'x': rng.choice(XS[:5]), 'fid': -1}
+      ops = threads[t]['ops']
+      ops.insert(rng.randrange(len(ops) + 1), op)
   events = []
   droppable = [f for f in fids if f in (0, 1, 3, 4, 6, 7, 8, 9, 10, 13)]
   nev = rng.choice([0, 1, 1, 2, 3]) if nthreads > 1 or rng.random() < 0.5 else 0
@@ -576,7 +607,7 @@ def make_plan(seed, index, tier, sub):
 # ---------------------------------------------------------------------------
 class Run(object):
 
-  def __init__(self, lane, plan, schedule, keep_log):
+  def __init__(self, lane, plan, schedule, keep_log, rdir=None):
     import malt
     from malt.impl import api
     from malt.core import converter
@@ -595,6 +626,10 @@ class Run(object):
     self.events_fired = []
     self.op_meta = {}        # ident -> dict for probes
     self.cache_locks = [l for l in boot.SIM_LOCKS if 'transpiler' in l.site[0]]
+    self.slots = {}
+    self.abstract = set()
+    self.n_fresh = 0
+    self.rdir = rdir
 
   def viol(self, rule, msg, sig):
     if len(self.violations) < 20:
@@ -614,7 +649,7 @@ class Run(object):
           return
         twins_alive = [o for o in self.E if o is not e and o.fn is not None and o.group == e.group]
         inflight_same = [op for op in self.inflight.values()
-                         if op is not None and self.E[op['fid']].group == e.group]
+                         if op is not None and op['fid'] >= 0 and self.E[op['fid']].group == e.group]
         e.fn = None
         e.self_obj = None
         if e.dropper:
@@ -631,7 +666,86 @@ class Run(object):
     return fire
 
   # -- one op ------------------------------------------------------------------
+  def do_fresh(self, tid, i, op):
+    """Load a new version of `vf` into a slot (dropping the previous occupant),
+    compute its convert-fresh reference at once (atomic harness step, pristine
+    world), then request it from the real cache and compare."""
+    sim, malt = self.sim, self.malt
+    rec = {'t': tid, 'i': i, 'op': op, 'status': None, 'faulted': False}
+    self.responses.append(rec)
+    slot, ver = op['slot'], op['ver']
+    name = 'simfresh_%d' % slot
+    with sched.atomic(sim):
+      old = self.slots.pop(slot, None)
+      old_id = None
+      if old is not None:
+        old_id = old['code_id']
+        sys.modules.pop(name, None)
+        old.clear()
+      del old
+      # the old function sits in a cycle with its module dict: it is really
+      # freed (and its address becomes reusable) only by a collection
+      gc.collect()
+      path = os.path.join(self.rdir, 'fresh', 's%d_v%d' % (slot, ver), name + '.py')
+      common.write_module(path, VER_SRC % {'c1': 1000 * (slot + 1) + 10 * ver, 'c2': ver % 4})
+      mod = common.load_module(name, path)
+      mod.OUT = self.U['sink']
+      mod.K = 3 + ver
+      f = mod.vf
+      code_id = id(f.__code__)
+      if old_id is not None and code_id == old_id:
+        sim.probe('code_object_address_reused')
+      self.n_fresh += 1       # (no reference to the code object is kept: its address must be reusable)
+      COUNT['active']['code_ids'][code_id] = 1000 + self.n_fresh
+      self.slots[slot] = {'mod': mod, 'code_id': code_id}
+      world = common.World()
+      with world:
+        try:
+          G = malt.to_graph(f, recursive=op['rec'], experimental_optional_features=_feats(malt, op['feats']))
+          l2 = []
+          with common.optrace() as t2:
+            o2 = common.outcome(G, op['x'], l2)
+          exp = ((o2[0], common.jsonable(o2[1]), common.jsonable(l2)), _norm_trace(t2))
+          ref = ('fn', G, world)
+        except Exception as ex:   # noqa: BLE001
+          ref, exp = ('exc', type(ex).__name__, None), None
+      sim.probe('fresh_versions_loaded')
+    self.inflight[tid] = {'fid': -1}
+    sim.point('op', -1, i)
+    g = None
+    try:
+      try:
+        g = malt.to_graph(f, recursive=op['rec'], experimental_optional_features=_feats(malt, op['feats']))
+        rec['status'] = 'fn'
+      except Exception as ex:   # noqa: BLE001
+        rec['status'] = 'exc'
+        rec['exc'] = type(ex).__name__
+        rec['msg'] = str(ex)[:200]
+      if g is not None:
+        l = []
+        with common.optrace() as tr:
+          o = common.outcome(g, op['x'], l)
+        got = ((o[0], common.jsonable(o[1]), common.jsonable(l)), _norm_trace(tr))
+    finally:
+      self.inflight[tid] = None
+    where = 'T%d op%d fresh(slot %d, version %d)' % (tid, i, slot, ver)
+    if rec['status'] == 'exc':
+      if ref[0] != 'exc':
+        self.viol('R1', '%s raised %s (%s) but a fresh conversion succeeds' % (where, rec['exc'], rec.get('msg', '')[:100]),
+                  'raised-%s' % rec['exc'])
+    elif ref[0] == 'exc':
+      self.viol('R1', '%s returned a function but a fresh conversion raises %s' % (where, ref[1]), 'should-raise')
+    else:
+      if g.__globals__ is not f.__globals__:
+        self.viol('R3', '%s: served function uses another module\'s globals' % where, 'globals')
+      self.compare_call(got, exp, where + ' x=%s' % op['x'])
+    sim.note('fresh:%s:%s' % (rec['status'], rec.get('exc') or got[0]))
+    with sched.atomic(sim):
+      f = g = G = mod = ref = world = None
+
   def do_op(self, tid, i, op):
+    if op['op'] == 'fresh':
+      return self.do_fresh(tid, i, op)
     sim = self.sim
     e = self.E[op['fid']]
     f = e.fn
@@ -695,6 +809,12 @@ class Run(object):
         thunk = g = o = f = self_obj = None
     if meta['blocked'] and COUNT['active']['transforms'] == meta['transforms0']:
       pass
+    # abstract state (for the evidence): which (code, options) pairs are
+    # transformed so far x which threads have a request in flight x who owns the cache lock
+    act = COUNT['active']
+    if act is not None and len(self.abstract) < 400:
+      self.abstract.add(repr((sorted(map(repr, act['done'])), sorted(t for t, o in self.inflight.items() if o),
+                              [l.owner.tid if l.owner is not None else None for l in self.cache_locks])))
     if meta['blocked']:
       sim.probe('request_blocked_on_cache_lock')
     if not meta['acquired'] and meta['others_held']:
@@ -706,7 +826,7 @@ class Run(object):
     plan, sim = self.plan, self.sim
     reals = common.real_transpilers()
     act = {'real': set(id(t) for t in reals), 'done': {}, 'who': {}, 'by_thread': {},
-           'code_ids': self.U['code_ids'], 'requests': 0, 'transforms': 0,
+           'code_ids': dict(self.U['code_ids']), 'requests': 0, 'transforms': 0,
            'tid_of': lambda ident: self.tid_by_ident.get(ident, -1)}
     COUNT['active'] = act
 
@@ -760,6 +880,8 @@ class Run(object):
     U, E = self.U, self.E
     for rec in self.responses:
       op = rec['op']
+      if op['op'] == 'fresh':
+        continue      # compared at once, inside the run
       e = E[op['fid']]
       if rec['status'] in (None, 'skipped-dropped'):
         continue
@@ -807,9 +929,9 @@ class Run(object):
 
   def _ckey(self, e, op):
     if op['op'] == 'cv':
-      okey = ('cv', op['rec'], op['ur'], op['feats'])
+      okey = ('cv', op['rec'], op['ur'], op['feats'], bool(op.get('disabled')))
     else:
-      okey = ('cc', op['rec'], op['ur'], op['icuc'], op['feats'], op.get('kw', 'none'))
+      okey = ('cc', op['rec'], op['ur'], op['icuc'], op['feats'], op.get('kw', 'none'), bool(op.get('disabled')))
     return (e.fid, okey, op['x'])
 
   def compare_call(self, got, exp, where):
@@ -893,7 +1015,7 @@ class Run(object):
     plan = self.plan
     optsets = sorted(set((op['rec'], op['feats']) for t in plan['threads'] for op in t['ops']
                          if op['op'] == 'tg'))
-    fids = sorted(set(op['fid'] for t in plan['threads'] for op in t['ops']))
+    fids = sorted(set(op['fid'] for t in plan['threads'] for op in t['ops'] if op['fid'] >= 0))
     if self.inj is not None:
       self.inj.disarm_all()
     for fid in fids:
@@ -955,7 +1077,7 @@ def run_job(lane, job, rdir):
       job['seed'], job['index'], job['tier'], job['sub'])
   prepare_refs(lane, plan)
   schedule = job.get('schedule') if job.get('mode') == 'explicit' else None
-  run = Run(lane, plan, schedule, job.get('keep_log', False))
+  run = Run(lane, plan, schedule, job.get('keep_log', False), rdir)
   outcome = run.execute()
   sim = run.sim
   res = {
@@ -964,7 +1086,9 @@ def run_job(lane, job, rdir):
       'schedule': sim.segments, 'sim_outcome': outcome, 'plan': plan,
       'faults_fired': [list(x[:3]) for x in run.inj.fired_log] if run.inj else [],
       'probes': sim.probes, 'switch_pairs': len(sim.switch_pairs),
+      'switch_pair_hashes': sim.switch_pair_hashes(),
       'events_fired': run.events_fired,
+      'abstract': sorted('%08x' % (__import__('zlib').crc32(x.encode())) for x in run.abstract),
       'stats': {'requests': len(run.responses),
                 'transform_requests': run.act['requests'], 'transforms': run.act['transforms'],
                 'responses_fn': sum(1 for r in run.responses if r['status'] == 'fn'),
@@ -972,7 +1096,8 @@ def run_job(lane, job, rdir):
                 'responses_called': sum(1 for r in run.responses if r['status'] == 'called'),
                 'skipped_dropped': sum(1 for r in run.responses if r['status'] == 'skipped-dropped'),
                 'faulted_requests': sum(1 for r in run.responses if r['faulted'])},
-      'trace': {str(tid): ' '.join('%s(%s)%s' % (r['op']['op'], run.E[r['op']['fid']].name,
+      'trace': {str(tid): ' '.join('%s(%s)%s' % (r['op']['op'], run.E[r['op']['fid']].name if r['op']['fid'] >= 0
+                                                  else 's%dv%d' % (r['op']['slot'], r['op']['ver']),
                                                   '=' + str(r['status']))
                                    for r in run.responses if r['t'] == tid)[:300]
                 for tid in range(len(plan['threads']))},
